@@ -114,3 +114,22 @@ CLAIMED = {
   "note": "Candidate clusters are single-protocluster DummyCandidateCluster objects of the repo's test helpers; Region/SubRegion/Record are the real classes.",
  },
 }
+
+
+# additions after the level texts of the notes were written (appended to the level text by gen_manifest.py)
+ADDENDA = {
+    "C01": "Since round 5/6: the specification is also evaluated on the WHOLE record (not only on the neighbourhood the implementation hands to rule.detect); pipeline histories mix HMMer and dynamic profiles on one gene and check that every hit reaches the rule evaluation.",
+    "C02": "The witness of every recorded finding (F02b included) is replayed on every run.",
+    "C05": "Generator ring_singles (neighbouring groups around an origin-crossing single).",
+    "C06": "Link histories include Record.create_candidate_clusters (model LFormCands / l_form, C06_no_stale_parents over such histories, C06_form_without_relink_refuted; repair e5074b2a).",
+    "C07": "The rule-independence runs on real rulesets go through the real find_hmmer_hits (only run_hmmsearch replaced; weak hits; equivalence groups of the shipped file); directed single-rule selections.",
+    "C08": "Look-up cases are built with earlier look-ups and get_cds_features() between the insertions.",
+    "C09": "Prepeptide model with an explicit slack (location longer than the sections, i.e. with the stop codon; repair 2b510ca7, residual F15e known); second conversion after the sections were moved through the setters.",
+    "C10": "Records converted once before their last modules are added; witness of C10-F71 replayed.",
+    "C11": "HmmerResults.refilter judged against the fresh-run predicate of build_hits (FC11b known: repair rejected by existing tests). RREFinderResults save/regenerate cycles are judged by the clauses of the property on the real code only (a test, no Gallina model of that module).",
+    "C12": "Witness of FC12b (codon_start gene on a region edge) replayed on every run.",
+    "C13": "fn 8: the real find_hmmer_hits (filter_results then filter_result_multiple), model find_hits_filters, C13_find_hits_filters_spec, swapped order refuted, oracle on every output.",
+    "C14": "fn 5: the real generate_domains loop (model generate_modules / gd_step, C14_generate_* theorems, adjacency oracle).",
+    "C17": "fn 20: get_ruleset limited to rule names across hash seeds (select_rules); fn 21: SecMetQualifier.add_domains over several calls (add_domains_history).",
+    "C18": "Fault kind StopIteration (repair fab50e8f, C18-K3).",
+}
